@@ -1701,6 +1701,8 @@ def main():
     write_if_changed(os.path.join(os.path.dirname(dst), "StrFnGen.v"), txt2, ok2)
     txt4, ok4 = generate_internal()
     write_if_changed(os.path.join(os.path.dirname(dst), "InternalGen.v"), txt4, ok4)
+    import rs2coq_store          # part 3 (policy-store loops) lives in its own module
+    rs2coq_store.main(os.path.dirname(dst))
 
 
 if __name__ == "__main__":
